@@ -190,10 +190,39 @@ def rule_merge(ck: Check, repo: Repo, rid: str = "R3") -> None:
             if isinstance(call.func, ast.Attribute) and call.func.attr == "add" and call.args and \
                     ast.unparse(call.args[0]).startswith("make_copyright_line("):
                 return ("add", it.text(call.args[0]))
+            if isinstance(call.func, ast.Attribute) and call.func.attr in ("add", "append", "update", "extend", "insert") and call.args:
+                return ("store", call.func.attr, it.text(call.func.value), it.text(call.args[-1]))
             return None
 
     out_label = f"each {ast.unparse(out_loop.target)} in {ast.unparse(out_loop.iter)}"
+    parse_label = f"each {ast.unparse(parse_loop.target)} in {ast.unparse(parse_loop.iter)}"
     leaves = tabulate(fn, H())
+    # parse loop as a generic element: a line that matches a pattern is stored exactly once in the list the output
+    # loop iterates, with its three fields; it never reaches the output (or anything else) directly - a notice that
+    # by-passes the grouping is not merged with the other notices of the same holder
+    parse_acc = ast.unparse(out_loop.iter)
+    seen_parse = set()
+    for d, leaf, _ in leaves:
+        stores = [e[2] for e in leaf.events if e[0] == "each" and e[1][:1] == (parse_label,) and e[2][0] in ("store", "add")]
+        matched = [v for k, v in d.items() if k.startswith(parse_label + "::") and re.search(r"\.(search|match|fullmatch)\(", k)
+                   and "groupdict" not in k and ".group(" not in k]
+        key = (tuple(matched), tuple(stores))
+        if key in seen_parse:
+            continue
+        seen_parse.add(key)
+        good = [st for st in stores if st[0] == "store" and st[1] == "append" and st[2] == parse_acc]
+        other = [st for st in stores if st not in good]
+        r.instance(f"parse-path:{matched}:{len(good)}:{len(other)}", {"pattern_matched": matched, "stored_for_merging": len(good),
+                                                                    "other_stores": [repr(o)[:80] for o in other]})
+        if other:
+            r.violation(q, "a parsed notice by-passes the per-holder grouping",
+                        f"the parse loop stores {other[0][1:3]} directly: that line is never merged with the other notices of the"
+                        f" same holder (one holder, several lines)", repo.loc(parse_loop))
+        elif matched and any(matched) and len(good) != 1:
+            r.violation(q, "a line matching a copyright pattern is not kept for merging", f"appends to {parse_acc}: {len(good)}",
+                        repo.loc(parse_loop))
+        elif matched and not any(matched) and good:
+            r.violation(q, "a line matching no pattern is stored", f"{good}", repo.loc(parse_loop))
     adds_seen = 0
     for d, leaf, _ in leaves:
         adds = []
